@@ -197,6 +197,10 @@ def unit_mt(ctx):
                 ctx.violation("rng:refcount-vs-isvalid", "rngIsValid disagrees with the number of held references", res)
             if res["end_valid"] or res["shadow_end"]:
                 ctx.violation("rng:refcount-unbalanced", "generator still valid after the last close", res)
+            if res.get("blobs_live_end", 0) > 1:
+                # hook BEE2_VERIF_BLOB_COUNT: after the last close only the exit-handler list (one blob) may remain
+                ctx.violation("rng:state-blob-left-behind", "%d blobs exist after every reference was returned (expected: the exit-handler "
+                              "list only)" % res["blobs_live_end"], res)
             if res["create_err"]:
                 ctx.note("rngCreate_errors", res["create_err"])
         for key, kind, blk, counted in _parse_tsan(logs):
